@@ -363,9 +363,10 @@ def _constructor_rejections():
 
 
 def _percall_failures(pid, tier, seed):
-    """C04 / C12, outside the model's label domain: in the model a request's call of `func` raises
-    for *every* invocation or for none (`bad`); here the call fails for an arbitrary subset of the
-    invocation indices of one apply()/start() request.  Direct check on the implementation: every
+    """C04 / C12: the call of `func` fails for an arbitrary subset of the invocation indices of one
+    apply()/start() request.  (The model and the lockstep harness cover this too - failure
+    patterns `bad=p0101...`, theorem C04_skips_exactly_failing; this direct check is kept as an
+    independent second look.)  Direct check on the implementation: every
     invocation whose call does not raise becomes exactly one task (in the returned group), the
     failing ones are skipped, whatever the pool size."""
     import asyncio
@@ -433,6 +434,22 @@ def label_kind(label):
     w = label.split()
     if w[0] == "run":
         return "run:" + w[1][0]
+    if w[0] in ("apply", "cfg"):
+        # which failure pattern the request / the SimpleTaskPool's function carries: none, every
+        # call fails, or a genuine mix of failing and non-failing invocations
+        kv = dict(x.split("=", 1) for x in w[1:] if "=" in x)
+        pat = kv.get("bad", "0")
+        if w[0] == "cfg" and kv.get("kind") != "simple":
+            return "cfg"
+        if pat == "1":
+            return w[0] + ":bad=all"
+        if pat.startswith("p") and "1" in pat:
+            bits = pat[1:]
+            if w[0] == "apply":
+                n = int(kv.get("num", "0"))
+                bits = (bits + "0" * n)[:n]
+            if "1" in bits:
+                return w[0] + (":bad=mixed" if "0" in bits else ":bad=all")
     return w[0]
 
 
